@@ -3,8 +3,16 @@
 // through histories of
 //   - block production attempts (m.VerifPublishBlock; the scripted sequencer hands out an empty or a
 //     non-empty batch),
-//   - header / data submission iterations (the body of HeaderSubmissionLoop / DataSubmissionLoop through the
-//     block/verif_export.go hooks: isEmpty, getPendingHeaders | createSignedDataToSubmit, submit…ToDA),
+//   - header / data submission iterations: in cases with Loop = true ONE TICK OF THE REAL LOOP — the exported
+//     HeaderSubmissionLoop / DataSubmissionLoop is started as the node starts it (own goroutine, its own ticker on
+//     config.DA.BlockTime, virtual time), serves its first tick completely (whatever the loop does before, instead
+//     of or around submit…ToDA is part of what runs) and is ended when it comes round to the top of its for loop
+//     the second time (the store wrapper sees the isEmpty() read the loop itself makes and ends the goroutine
+//     there); the result class is read off what the loop did (did it read the pending range, did it reach the DA
+//     layer, did the loop function itself log an error) — in cases with Loop = false the loop body through the
+//     block/verif_export.go hooks (isEmpty, getPendingHeaders | createSignedDataToSubmit, submit…ToDA),
+//   - node configuration per case: config.Node.LazyMode on / off, MaxPendingHeadersAndData 1..10 (and 255..1000),
+//   - blocks whose transactions weigh 1 KB .. 1.9 MB (the DA double takes blobs up to 1,974,272 bytes),
 //   - restarts (NewManager on the same datastore),
 //   - INTERLEAVED production attempts (item "produce_i"): the store handed to the Manager is wrapped; at the k-th
 //     store call publishBlockInternal makes (Height() of numPendingHeaders / numPendingData / getPending, the
@@ -26,6 +34,7 @@ import (
 	"encoding/binary"
 	"errors"
 	"fmt"
+	"math"
 	"math/rand"
 	"os"
 	"path/filepath"
@@ -67,6 +76,7 @@ type Item struct {
 	T  string    `json:"t"`            // produce produce_i produce_empty headers data restart
 	NE bool      `json:"ne,omitempty"` // produce, produce_i: the sequencer hands out transactions
 	N  int       `json:"n,omitempty"`  // produce_empty: number of attempts in a row without transactions
+	Sz int       `json:"sz,omitempty"` // produce with NE: total number of transaction bytes of the block (0 = a few small transactions); the data blob is that plus ~200 bytes
 	P  int       `json:"p,omitempty"`  // produce, produce_i with NE: 0 = a fresh transaction list never seen before, k >= 1 = the k-th list of a small fixed pool (the SAME transactions as every other block with that k)
 	SC []Outcome `json:"sc,omitempty"` // headers / data: DA answers, then cancellation
 	At []Inject  `json:"at,omitempty"` // produce_i: submission iterations run inside the attempt
@@ -89,8 +99,22 @@ type Replay struct {
 	Case    int    `json:"case"`
 	Init    uint64 `json:"init"`
 	Limit   uint64 `json:"limit"`
+	Lazy    bool   `json:"lazy,omitempty"` // config.Node.LazyMode
+	Loop    bool   `json:"loop,omitempty"` // submission iterations = one tick of the REAL HeaderSubmissionLoop / DataSubmissionLoop (else: the loop body through the hooks)
 	History []Item `json:"history"`
 }
+
+// node configuration of a case beyond initial height and limit
+type caseOpt struct {
+	lazy bool // config.Node.LazyMode
+	loop bool // drive the real submission loops, one tick per iteration
+}
+
+// daMaxBlob: what the DA double takes in one blob (the default of local-da / the jsonrpc client: 64*64*482)
+const daMaxBlob = 1974272
+
+// maxTxBytes: the largest block the generators ask for (transaction bytes; the SignedData blob stays below daMaxBlob)
+const maxTxBytes = 1900000
 
 const all = 1000
 
@@ -140,9 +164,17 @@ func genScript(r *rand.Rand) []Outcome {
 	}
 }
 
+// every limit from 1 to 10, the small ones more often (a limit below any batching threshold a loop might have)
+func genLimit(r *rand.Rand) uint64 {
+	return []uint64{1, 2, 3, 4, 5, 6, 7, 8, 9, 10, 1, 2, 3, 10}[r.Intn(14)]
+}
+
+// lazy or normal mode; the real loops or the loop bodies through the hooks
+func genOpt(r *rand.Rand) caseOpt { return caseOpt{lazy: r.Intn(2) == 0, loop: r.Intn(2) == 0} }
+
 func genHistory(r *rand.Rand, maxLen int) (uint64, uint64, []Item) {
 	init := []uint64{1, 1, 1, 2, 5, 12, 1000}[r.Intn(7)]
-	limit := []uint64{1, 2, 3, 10}[r.Intn(4)]
+	limit := genLimit(r)
 	mix := r.Intn(4) // 0 all-empty, 1 all non-empty, 2,3 mixed
 	pNE := []int{0, 100, 50, 25}[mix]
 	n := 4 + r.Intn(maxLen-3)
@@ -236,7 +268,7 @@ func genInjects(r *rand.Rand, limit uint64) []Inject {
 // count that went out of date under its hands must not outlive that attempt.
 func genInterleaved(r *rand.Rand) (uint64, uint64, []Item) {
 	init := []uint64{1, 1, 1, 2, 5}[r.Intn(5)]
-	limit := []uint64{1, 2, 3, 3, 4, 10}[r.Intn(6)]
+	limit := []uint64{1, 2, 3, 3, 4, 10, 5, 6, 7, 8, 9}[r.Intn(11)]
 	pNE := []int{100, 80, 50, 30, 0}[r.Intn(5)]
 	var h []Item
 	pair := func() {
@@ -467,6 +499,86 @@ func genBoundary(r *rand.Rand, idx int) (uint64, uint64, []Item) {
 	return init, limit, h
 }
 
+// sizes (transaction bytes of one block) from 1 KB to 1.9 MB: log-uniform over the whole range / next to a round
+// number (powers of two from 64 KiB to 1.5 MiB, 10^5 .. 1.9*10^6), a little below, at, a little above / uniform over
+// the top of the range (1.0 .. 1.9 MB), where a size budget anywhere between a block and the DA layer would be
+var sizeMarks = []int{1 << 16, 1 << 17, 1 << 18, 1 << 19, 1 << 20, 3 << 19, 100000, 250000, 500000, 750000, 1000000, 1250000, 1500000, 1750000, maxTxBytes}
+
+func genSize(r *rand.Rand) int {
+	var n int
+	switch x := r.Intn(10); {
+	case x < 4:
+		n = int(1000 * math.Exp(r.Float64()*math.Log(float64(maxTxBytes)/1000)))
+	case x < 7:
+		n = sizeMarks[r.Intn(len(sizeMarks))] + []int{-4096, -1024, -300, -1, 0, 1, 300, 1024, 4096}[r.Intn(9)]
+	default:
+		n = 1000000 + r.Intn(maxTxBytes-1000000+1)
+	}
+	if n < 1 {
+		n = 1
+	}
+	if n > maxTxBytes {
+		n = maxTxBytes
+	}
+	return n
+}
+
+// blob-size stream: the REAL submission loops (one tick per iteration), lazy or normal mode, limits 1..10, blocks
+// whose transactions weigh 1 KB .. 1.9 MB (the DA double takes blobs up to daMaxBlob), DA layer mostly accepting:
+// 1..3 segments of (a few sized blocks, empty ones in between; then a round of both loops — sometimes after the DA
+// layer took the blobs one at a time or failed a few times), then a sized block followed by L-1 more blocks with
+// transactions (the pending data reaches the limit behind it) and rounds (both loops against the accepting DA
+// layer, one attempt).  Whatever a block weighs, a tick offers it, the DA layer takes it, production goes on.
+func genSizes(r *rand.Rand) (uint64, uint64, []Item) {
+	init := []uint64{1, 1, 1, 2, 5}[r.Intn(5)]
+	limit := genLimit(r)
+	var h []Item
+	pair := func() {
+		if r.Intn(2) == 0 {
+			h = append(h, Item{T: "headers", SC: acceptAll()}, Item{T: "data", SC: acceptAll()})
+		} else {
+			h = append(h, Item{T: "data", SC: acceptAll()}, Item{T: "headers", SC: acceptAll()})
+		}
+	}
+	sized := func() { h = append(h, Item{T: "produce", NE: true, Sz: genSize(r)}) }
+	h = append(h, Item{T: "produce"}) // the stored genesis block
+	if r.Intn(2) == 0 {
+		pair()
+	}
+	budget := 4 // sized blocks per case (each costs a few ms per store / DA round trip)
+	for seg, nseg := 0, 1+r.Intn(2); seg < nseg && budget > 1; seg++ {
+		for j, k := 0, 1+r.Intn(2); j < k && budget > 1; j++ {
+			sized()
+			budget--
+			if r.Intn(3) == 0 {
+				h = append(h, Item{T: "produce"})
+			}
+		}
+		switch x := r.Intn(10); {
+		case x < 5:
+		case x < 7: // the DA layer takes the data blobs one at a time
+			h = append(h, Item{T: "data", SC: []Outcome{{O: "accept", K: 1}, {O: "accept", K: 1}}})
+		case x < 9: // a short outage
+			h = append(h, Item{T: "data", SC: outage(r, 1+r.Intn(3))})
+		default: // the data loop gives up once
+			h = append(h, Item{T: "data", SC: outage(r, 30)[:30]})
+		}
+		pair()
+		h = append(h, Item{T: "produce", NE: r.Intn(2) == 0})
+	}
+	// a sized block, then L-1 blocks with transactions behind it, then rounds
+	sized()
+	for j := uint64(1); j < limit; j++ {
+		h = append(h, Item{T: "produce", NE: true})
+	}
+	h = append(h, Item{T: "produce", NE: true}) // refused iff L blocks wait
+	for j, k := 0, 2+r.Intn(3); j < k; j++ {
+		pair()
+		h = append(h, Item{T: "produce", NE: r.Intn(3) > 0})
+	}
+	return init, limit, h
+}
+
 // ---- doubles -----------------------------------------------------------------------------------
 
 type seqDouble struct {
@@ -496,6 +608,7 @@ type daCall struct {
 	kind     string // "h" "d" "?"
 	heights  []uint64
 	accepted int
+	maxBlob  int // size of the largest blob of the request
 }
 
 type daDouble struct {
@@ -504,6 +617,7 @@ type daDouble struct {
 	calls    []daCall
 	accepted map[string][][]byte // kind -> accepted blobs in order
 	daHeight uint64
+	touched  int // requests received, including those answered "context cancelled" (script used up), which are not recorded
 }
 
 func fErr(f string) error {
@@ -536,6 +650,7 @@ func classify(b []byte) (string, uint64) {
 func (d *daDouble) SubmitWithOptions(ctx context.Context, blobs []coreda.Blob, gasPrice float64, ns []byte, opts []byte) ([]coreda.ID, error) {
 	d.mu.Lock()
 	defer d.mu.Unlock()
+	d.touched++
 	if len(d.script) == 0 { // script used up: the context of the caller is cancelled
 		return nil, context.Canceled
 	}
@@ -543,6 +658,7 @@ func (d *daDouble) SubmitWithOptions(ctx context.Context, blobs []coreda.Blob, g
 	d.script = d.script[1:]
 	kind := "?"
 	var hs []uint64
+	maxBlob := 0
 	for i, b := range blobs {
 		k, h := classify(b)
 		if i == 0 {
@@ -551,8 +667,15 @@ func (d *daDouble) SubmitWithOptions(ctx context.Context, blobs []coreda.Blob, g
 			kind = "?"
 		}
 		hs = append(hs, h)
+		if len(b) > maxBlob {
+			maxBlob = len(b)
+		}
 	}
-	c := daCall{kind: kind, heights: hs}
+	c := daCall{kind: kind, heights: hs, maxBlob: maxBlob}
+	if maxBlob > daMaxBlob { // more than the DA layer takes in one blob (the generators stay below)
+		d.calls = append(d.calls, c)
+		return nil, fmt.Errorf("da double: %w", coreda.ErrBlobSizeOverLimit)
+	}
 	if o.O != "accept" {
 		d.calls = append(d.calls, c)
 		return nil, fmt.Errorf("da double: %w", fErr(o.F))
@@ -611,15 +734,46 @@ type world struct {
 	ctx     context.Context
 	rootDir string
 	att     *attemptCtx // set while an interleaved production attempt runs
+	tick    *tickCtx    // set while a real submission loop runs its tick
+	opt     caseOpt
 	res     *caseResult
+	accOK   map[string]uint64 // oracle cache: accepted blob (kind, index) -> height, once compared with the block store
+	neOK    map[uint64]bool   // oracle cache: committed height -> has transactions (committed blocks are immutable)
+}
+
+// what the harness sees of one tick of a real submission loop
+type tickCtx struct {
+	ticks   int  // iterations the loop has begun (isEmpty called by the loop itself)
+	fetched bool // the iteration read the pending range (getPending)
+	loopErr bool // the loop itself logged an error: its iteration ended with one
+}
+
+// recLogger is the node's logger; it notes when HeaderSubmissionLoop / DataSubmissionLoop THEMSELVES log an error
+// (they do exactly when getPending… / createSignedDataToSubmit / submit…ToDA returned one) — who logs, not what.
+type recLogger struct {
+	logging.EventLogger
+	w *world
+}
+
+func (l *recLogger) Error(args ...interface{}) {
+	if t := l.w.tick; t != nil {
+		pcs := make([]uintptr, 1)
+		if runtime.Callers(2, pcs) == 1 {
+			f, _ := runtime.CallersFrames(pcs).Next()
+			if strings.HasSuffix(f.Function, ".HeaderSubmissionLoop") || strings.HasSuffix(f.Function, ".DataSubmissionLoop") {
+				t.loopErr = true
+			}
+		}
+	}
+	l.EventLogger.Error(args...)
 }
 
 type rndReader struct{ r *rand.Rand }
 
 func (x rndReader) Read(p []byte) (int, error) { return x.r.Read(p) }
 
-func newWorld(r *rand.Rand, init, limit uint64, rootDir string) (*world, error) {
-	w := &world{ctx: context.Background(), rootDir: rootDir}
+func newWorld(r *rand.Rand, init, limit uint64, opt caseOpt, rootDir string) (*world, error) {
+	w := &world{ctx: context.Background(), rootDir: rootDir, opt: opt, accOK: map[string]uint64{}, neOK: map[uint64]bool{}}
 	priv, pub, err := crypto.GenerateEd25519Key(rndReader{r})
 	if err != nil {
 		return nil, err
@@ -637,6 +791,7 @@ func newWorld(r *rand.Rand, init, limit uint64, rootDir string) (*world, error) 
 	w.cfg.RootDir = rootDir
 	w.cfg.Node.Aggregator = true
 	w.cfg.Node.MaxPendingHeadersAndData = limit
+	w.cfg.Node.LazyMode = opt.lazy
 	w.cfg.Node.BlockTime.Duration = time.Second
 	w.cfg.DA.BlockTime.Duration = time.Second
 	w.cfg.DA.MempoolTTL = 2
@@ -649,7 +804,7 @@ func newWorld(r *rand.Rand, init, limit uint64, rootDir string) (*world, error) 
 func (w *world) start() error {
 	w.st = store.New(w.kv)
 	w.seq = &seqDouble{}
-	lg := logging.Logger("c08")
+	lg := &recLogger{EventLogger: logging.Logger("c08"), w: w}
 	logging.SetAllLoggers(logging.LevelFatal)
 	m, err := block.NewManager(w.ctx, w.sig, w.cfg, w.gen, &hookStore{Store: w.st, w: w}, coreexec.NewDummyExecutor(), w.seq, w.da,
 		lg, nil, nil, nopBroadcaster[*types.SignedHeader]{}, nopBroadcaster[*types.Data]{},
@@ -767,6 +922,10 @@ func hasFn(fs []string, name string) bool {
 //          and let the attempt pass), up to and including SetHeight
 // Reads made for the refusal's log message and anything after SetHeight are no points.
 func (w *world) storeCall(method string, h uint64, key string, value []byte) {
+	if t := w.tick; t != nil {
+		w.tickCall(t, method)
+		return
+	}
 	a := w.att
 	if a == nil || a.busy {
 		return
@@ -820,14 +979,111 @@ func (w *world) storeCall(method string, h uint64, key string, value []byte) {
 			keep = append(keep, sb)
 			continue
 		}
-		r, calls := w.runSub(sb.T, sb.SC)
+		r, calls := w.sub(sb.T, sb.SC)
 		a.fired = append(a.fired, firedSub{queue: queue, idx: idx, sub: sb, res: r, calls: calls})
 	}
 	a.pend = keep
 	a.busy = false
 }
 
-// one iteration of a submission loop (the body of HeaderSubmissionLoop / DataSubmissionLoop after the tick)
+// a store call made while a real submission loop runs its tick.  The loop begins every iteration with isEmpty()
+// (a Height() read made by the loop function itself): the first one is the tick under test; when the loop comes
+// round to the second one, the iteration under test is over — completely, with all its attempts and backoff
+// sleeps — and the loop goroutine is ended right there (its deferred ticker.Stop runs), before it looks at anything.
+func (w *world) tickCall(t *tickCtx, method string) {
+	fs := callerFuncs()
+	switch {
+	case method == "Height" && hasFn(fs, "isEmpty") && (hasFn(fs, "HeaderSubmissionLoop") || hasFn(fs, "DataSubmissionLoop")):
+		t.ticks++
+		if t.ticks >= 2 {
+			runtime.Goexit()
+		}
+	case hasFn(fs, "getPending"):
+		t.fetched = true
+	}
+}
+
+// one iteration of a submission loop: one tick of the REAL loop (HeaderSubmissionLoop / DataSubmissionLoop started
+// as the node starts them, run until their first tick has been served), or — cases with Loop = false — the loop
+// body through the hooks
+func (w *world) sub(T string, sc []Outcome) (int, [][]uint64) {
+	if w.opt.loop {
+		return w.runTick(T, sc)
+	}
+	return w.runSub(T, sc)
+}
+
+// tickCap: virtual time after which a loop that has not come round to its second tick is stopped (one iteration
+// of 30 attempts with the longest backoff takes minutes)
+const tickCap = 24 * time.Hour
+
+func (w *world) runTick(T string, sc []Outcome) (r int, calls [][]uint64) {
+	w.da.script = append([]Outcome{}, sc...)
+	n0, t0 := len(w.da.calls), w.da.touched
+	tk := &tickCtx{}
+	ctx, cancel := context.WithCancel(w.ctx)
+	done := make(chan struct{})
+	w.tick = tk
+	go func() {
+		defer close(done)
+		if T == "headers" {
+			w.m.HeaderSubmissionLoop(ctx)
+		} else {
+			w.m.DataSubmissionLoop(ctx)
+		}
+	}()
+	guard := time.NewTimer(tickCap)
+	defer guard.Stop()
+	select {
+	case <-done:
+	case <-guard.C:
+		w.res.fail("submission-loop-never-came-round", fmt.Sprintf("%s submission loop: a day after its first tick the loop has not come back to the top of its for loop", T))
+		cancel()
+		<-done
+	}
+	cancel()
+	w.tick = nil
+	w.da.script = nil
+	touched := w.da.touched > t0
+	switch {
+	case tk.loopErr && touched:
+		r = 4
+	case tk.loopErr:
+		r = 2
+	case touched:
+		r = 3
+	case tk.fetched:
+		r = 1
+	default:
+		r = 0
+	}
+	w.res.nTicks++
+	return r, w.subCalls(T, n0, r)
+}
+
+// the DA requests an iteration made (blob heights of each), with the oracle's checks on them
+func (w *world) subCalls(T string, n0, r int) (calls [][]uint64) {
+	want := map[string]string{"headers": "h", "data": "d"}[T]
+	for _, c := range w.da.calls[n0:] {
+		calls = append(calls, c.heights)
+		switch {
+		case len(c.heights) == 0:
+			w.res.fail("empty-da-request", fmt.Sprintf("a %s submission sent a request with no blob in it to the DA layer (watermarks %d/%d, height %d)", T, w.m.VerifLastSubmittedHeaderHeight(), w.m.VerifLastSubmittedDataHeight(), w.height()))
+		case c.kind != want:
+			w.res.fail("blob-of-wrong-kind", fmt.Sprintf("a %s submission carried blobs of kind %q", T, c.kind))
+		}
+		w.res.sizeClass(c.maxBlob)
+	}
+	if r == 4 {
+		w.res.nExhausted++
+	}
+	if r == 2 {
+		w.res.fail("pending-range-unreadable", fmt.Sprintf("%s iteration: reading the pending range failed (watermarks %d/%d, height %d)", T, w.m.VerifLastSubmittedHeaderHeight(), w.m.VerifLastSubmittedDataHeight(), w.height()))
+	}
+	return
+}
+
+// one iteration of a submission loop through the hooks (the body of HeaderSubmissionLoop / DataSubmissionLoop after the tick)
 func (w *world) runSub(T string, sc []Outcome) (r int, calls [][]uint64) {
 	w.da.script = append([]Outcome{}, sc...)
 	n0 := len(w.da.calls)
@@ -857,20 +1113,7 @@ func (w *world) runSub(T string, sc []Outcome) (r int, calls [][]uint64) {
 		}
 	}
 	w.da.script = nil
-	want := map[string]string{"headers": "h", "data": "d"}[T]
-	for _, c := range w.da.calls[n0:] {
-		calls = append(calls, c.heights)
-		if c.kind != want {
-			w.res.fail("blob-of-wrong-kind", fmt.Sprintf("a %s submission carried blobs of kind %q", T, c.kind))
-		}
-	}
-	if r == 4 {
-		w.res.nExhausted++
-	}
-	if r == 2 {
-		w.res.fail("pending-range-unreadable", fmt.Sprintf("%s iteration: reading the pending range failed (watermarks %d/%d, height %d)", T, w.m.VerifLastSubmittedHeaderHeight(), w.m.VerifLastSubmittedDataHeight(), w.height()))
-	}
-	return
+	return r, w.subCalls(T, n0, r)
 }
 
 func (w *world) persisted(kind string) uint64 {
@@ -902,7 +1145,13 @@ func (w *world) committed(h uint64) (*types.SignedHeader, *types.Data, bool) {
 }
 
 func (w *world) nonEmpty(h uint64) bool {
+	if ne, ok := w.neOK[h]; ok && h <= w.height() {
+		return ne
+	}
 	_, d, ok := w.committed(h)
+	if ok {
+		w.neOK[h] = len(d.Txs) > 0
+	}
 	return ok && len(d.Txs) > 0
 }
 
@@ -910,7 +1159,13 @@ func (w *world) nonEmpty(h uint64) bool {
 // each blob compared with the block store
 func (w *world) acceptedSet(kind string) map[uint64]bool {
 	set := map[uint64]bool{}
-	for _, b := range w.da.accepted[kind] {
+	for i, b := range w.da.accepted[kind] {
+		// a blob found equal to the committed block once stays so (blobs and committed blocks are immutable)
+		key := fmt.Sprintf("%s%d", kind, i)
+		if h, ok := w.accOK[key]; ok {
+			set[h] = true
+			continue
+		}
 		if kind == "h" {
 			var sh types.SignedHeader
 			if sh.UnmarshalBinary(b) != nil {
@@ -918,6 +1173,7 @@ func (w *world) acceptedSet(kind string) map[uint64]bool {
 			}
 			if st, _, ok := w.committed(sh.Height()); ok && bytes.Equal(sh.Hash(), st.Hash()) && bytes.Equal(sh.Signature, st.Signature) {
 				set[sh.Height()] = true
+				w.accOK[key] = sh.Height()
 			}
 			continue
 		}
@@ -927,6 +1183,7 @@ func (w *world) acceptedSet(kind string) map[uint64]bool {
 		}
 		if _, d, ok := w.committed(sd.Height()); ok && bytes.Equal(sd.Data.Hash(), d.Hash()) && len(sd.Txs) == len(d.Txs) {
 			set[sd.Height()] = true
+			w.accOK[key] = sd.Height()
 		}
 	}
 	return set
@@ -977,6 +1234,28 @@ type caseResult struct {
 	nInterRef  int
 	nInterProd int
 	points     map[string]int // where interleaved iterations ran
+	nTicks     int            // submission iterations served by the real loops
+	sizes      map[string]int // DA requests by the size of their largest blob
+}
+
+func (r *caseResult) sizeClass(n int) {
+	if r.sizes == nil {
+		r.sizes = map[string]int{}
+	}
+	switch {
+	case n == 0:
+		r.sizes["empty-request"]++
+	case n < 4096:
+		r.sizes["below-4KB"]++
+	case n < 65536:
+		r.sizes["4KB-64KB"]++
+	case n < 1000000:
+		r.sizes["64KB-1MB"]++
+	case n < 1500000:
+		r.sizes["1MB-1.5MB"]++
+	default:
+		r.sizes["1.5MB-and-more"]++
+	}
 }
 
 func (r *caseResult) fail(sig, what string) {
@@ -1016,7 +1295,7 @@ func acceptingPair(hist []Item, j int) bool {
 		((hist[j].T == "headers" && hist[j-1].T == "data") || (hist[j].T == "data" && hist[j-1].T == "headers"))
 }
 
-func runCase(seed int64, c int, init, limit uint64, hist []Item, rootDir string) (res *caseResult) {
+func runCase(seed int64, c int, init, limit uint64, opt caseOpt, hist []Item, rootDir string) (res *caseResult) {
 	res = &caseResult{}
 	defer func() {
 		if x := recover(); x != nil {
@@ -1026,7 +1305,7 @@ func runCase(seed int64, c int, init, limit uint64, hist []Item, rootDir string)
 	r := rand.New(rand.NewSource(seed*7919 + int64(c)*104729 + 8))
 	_ = os.RemoveAll(rootDir)
 	res.points = map[string]int{}
-	w, err := newWorld(r, init, limit, rootDir)
+	w, err := newWorld(r, init, limit, opt, rootDir)
 	if err != nil {
 		res.err = err
 		return
@@ -1054,7 +1333,7 @@ func runCase(seed int64, c int, init, limit uint64, hist []Item, rootDir string)
 	// one production attempt; returns whether it was refused.  The oracle's facts are read from the store
 	// and the DA double lazily (only on a refusal: a refused attempt changes nothing they depend on).
 	seenTxs := map[string]bool{}
-	attempt := func(i int, wantNE bool, pay int, inj []Inject, io *itemOut) bool {
+	attempt := func(i int, wantNE bool, pay, sz int, inj []Inject, io *itemOut) bool {
 		before := w.height()
 		interleaved := inj != nil
 		var nwait0, first0 uint64
@@ -1080,6 +1359,24 @@ func runCase(seed int64, c int, init, limit uint64, hist []Item, rootDir string)
 		}
 		if wantNE && pay > 0 {
 			w.seq.next = poolTxs(pay)
+		} else if wantNE && sz > 0 {
+			// sz transaction bytes in 1..3 transactions
+			n := 1 + r.Intn(3)
+			if n > sz {
+				n = 1
+			}
+			var txs [][]byte
+			for j, left := 0, sz; j < n; j++ {
+				k := left
+				if j < n-1 {
+					k = 1 + r.Intn(left-(n-1-j))
+				}
+				tx := make([]byte, k)
+				r.Read(tx)
+				txs = append(txs, tx)
+				left -= k
+			}
+			w.seq.next = txs
 		} else if wantNE {
 			n := 1 + r.Intn(3)
 			var txs [][]byte
@@ -1182,7 +1479,7 @@ func runCase(seed int64, c int, init, limit uint64, hist []Item, rootDir string)
 		switch it.T {
 		case "produce":
 			io := itemOut{coqItem: "IProduce " + vgen.Bool(it.NE)}
-			if attempt(i, it.NE, it.P, nil, nil) {
+			if attempt(i, it.NE, it.P, it.Sz, nil, nil) {
 				io.res = 1
 			}
 			if res.err != nil {
@@ -1196,7 +1493,7 @@ func runCase(seed int64, c int, init, limit uint64, hist []Item, rootDir string)
 			if inj == nil {
 				inj = []Inject{}
 			}
-			if attempt(i, it.NE, it.P, inj, &io) {
+			if attempt(i, it.NE, it.P, it.Sz, inj, &io) {
 				io.res = 1
 			}
 			if res.err != nil {
@@ -1223,7 +1520,7 @@ func runCase(seed int64, c int, init, limit uint64, hist []Item, rootDir string)
 			}
 			for _, sb := range io.late {
 				lo := itemOut{coqItem: subItemCoq(sb)}
-				lo.res, lo.calls = w.runSub(sb.T, sb.SC)
+				lo.res, lo.calls = w.sub(sb.T, sb.SC)
 				obs(&lo)
 			}
 		case "produce_empty":
@@ -1233,7 +1530,7 @@ func runCase(seed int64, c int, init, limit uint64, hist []Item, rootDir string)
 				if j > 0 {
 					k = -1 // only the first attempt of the stretch comes right after the preceding iterations
 				}
-				if attempt(k, false, 0, nil, nil) {
+				if attempt(k, false, 0, 0, nil, nil) {
 					io.res++
 				}
 				if res.err != nil {
@@ -1251,7 +1548,7 @@ func runCase(seed int64, c int, init, limit uint64, hist []Item, rootDir string)
 			obs(&io)
 		case "headers", "data":
 			io := itemOut{coqItem: subItemCoq(SubIt{T: it.T, SC: it.SC})}
-			io.res, io.calls = w.runSub(it.T, it.SC)
+			io.res, io.calls = w.sub(it.T, it.SC)
 			// ---- oracle: a DA layer that accepts gets everything accepted: after one header and one data
 			// iteration nothing committed is left waiting
 			if acceptingPair(hist, i) {
@@ -1348,10 +1645,10 @@ func schedCoq(fired []firedSub) string {
 }
 
 // run a case inside a synctest bubble (virtual time)
-func runBubble(t *testing.T, seed int64, c int, init, limit uint64, hist []Item, rootDir string) *caseResult {
+func runBubble(t *testing.T, seed int64, c int, init, limit uint64, opt caseOpt, hist []Item, rootDir string) *caseResult {
 	var res *caseResult
 	synctest.Test(t, func(t *testing.T) {
-		res = runCase(seed, c, init, limit, hist, rootDir)
+		res = runCase(seed, c, init, limit, opt, hist, rootDir)
 	})
 	return res
 }
@@ -1400,9 +1697,11 @@ func TestVerif(t *testing.T) {
 		c           int
 		init, limit uint64
 		hist        []Item
+		opt         caseOpt
 		boundary    bool
 		inter       bool
 		repeat      bool
+		sizes       bool
 	}
 	var jobs []job
 	if e.Replay != "" {
@@ -1410,7 +1709,7 @@ func TestVerif(t *testing.T) {
 		if err := vgen.LoadReplay(e.Replay, &rp); err != nil {
 			t.Fatal(err)
 		}
-		jobs = append(jobs, job{seed: rp.Seed, c: rp.Case, init: rp.Init, limit: rp.Limit, hist: rp.History})
+		jobs = append(jobs, job{seed: rp.Seed, c: rp.Case, init: rp.Init, limit: rp.Limit, hist: rp.History, opt: caseOpt{lazy: rp.Lazy, loop: rp.Loop}})
 	} else {
 		files, _ := filepath.Glob("../corpus/C08/*.json")
 		if os.Getenv("VERIF_NO_CORPUS") != "" {
@@ -1419,7 +1718,7 @@ func TestVerif(t *testing.T) {
 		for _, f := range files {
 			var rp Replay
 			if vgen.LoadReplay(f, &rp) == nil && rp.History != nil {
-				jobs = append(jobs, job{seed: rp.Seed, c: rp.Case, init: rp.Init, limit: rp.Limit, hist: rp.History})
+				jobs = append(jobs, job{seed: rp.Seed, c: rp.Case, init: rp.Init, limit: rp.Limit, hist: rp.History, opt: caseOpt{lazy: rp.Lazy, loop: rp.Loop}})
 			}
 		}
 		// the size-boundary stream: 2 cases per run (quick), 3 per shard (thorough)
@@ -1438,6 +1737,10 @@ func TestVerif(t *testing.T) {
 		for c := 0; c < e.N/6; c++ {
 			jobs = append(jobs, job{seed: e.Seed, c: 3000000 + c, repeat: true})
 		}
+		// the blob-size stream: N/10 cases on top
+		for c := 0; c < e.N/10; c++ {
+			jobs = append(jobs, job{seed: e.Seed, c: 4000000 + c, sizes: true})
+		}
 		for c := 0; c < e.N; c++ {
 			jobs = append(jobs, job{seed: e.Seed, c: c})
 		}
@@ -1448,9 +1751,18 @@ func TestVerif(t *testing.T) {
 	}
 	var cases, defsAll []string
 	distinct := map[string]bool{}
+	shrunk := map[string]bool{}
 	for ji, j := range jobs {
-		init, limit, hist := j.init, j.limit, j.hist
-		if hist == nil && j.boundary {
+		init, limit, hist, opt := j.init, j.limit, j.hist, j.opt
+		if hist == nil {
+			// mode of the node and of the harness: from a stream of their own, so that the histories do not depend on them
+			opt = genOpt(rand.New(rand.NewSource(j.seed*999983 + int64(j.c)*31 + 17)))
+		}
+		if hist == nil && j.sizes {
+			init, limit, hist = genSizes(caseRng(j.seed, j.c))
+			opt.loop = true
+			res.Count("stream:blob-sizes")
+		} else if hist == nil && j.boundary {
 			init, limit, hist = genBoundary(caseRng(j.seed, j.c), j.c-1000000)
 			res.Count("stream:size-boundary")
 		} else if hist == nil && j.inter {
@@ -1462,13 +1774,19 @@ func TestVerif(t *testing.T) {
 		} else if hist == nil {
 			init, limit, hist = genHistory(caseRng(j.seed, j.c), maxLen)
 		}
-		cr := runBubble(t, j.seed, j.c, init, limit, hist, rootDir)
+		cr := runBubble(t, j.seed, j.c, init, limit, opt, hist, rootDir)
 		if cr.err != nil {
 			t.Fatalf("harness error (seed %d case %d): %v", j.seed, j.c, cr.err)
 		}
 		res.Evaluations++
 		res.Count(fmt.Sprintf("initial-height:%d", init))
 		res.Count(fmt.Sprintf("limit:%d", limit))
+		res.Count(map[bool]string{true: "mode:lazy", false: "mode:normal"}[opt.lazy])
+		res.Count(map[bool]string{true: "iterations:real-loop-tick", false: "iterations:loop-body-through-hooks"}[opt.loop])
+		res.Distribution["iteration:served-by-the-real-loop"] += cr.nTicks
+		for k, n := range cr.sizes {
+			res.Distribution["da-request:largest-blob:"+k] += n
+		}
 		for _, it := range hist {
 			res.Count("item:" + it.T)
 			if it.T == "produce_empty" {
@@ -1533,18 +1851,23 @@ func TestVerif(t *testing.T) {
 		if cr.nProduced > 0 && cr.nRefused > 0 && cr.ncalls > 0 {
 			distinct[fmt.Sprintf("%d|%d|%s", init, limit, strings.Join(items, ";"))] = true
 		}
-		rp := Replay{Seed: j.seed, Case: j.c, Init: init, Limit: limit, History: hist}
+		rp := Replay{Seed: j.seed, Case: j.c, Init: init, Limit: limit, Lazy: opt.lazy, Loop: opt.loop, History: hist}
 		for vi, sig := range cr.viol {
 			fails := func(h []Item) bool {
 				if len(h) == 0 {
 					return false
 				}
-				r2 := runBubble(t, j.seed, j.c, init, limit, h, rootDir)
+				r2 := runBubble(t, j.seed, j.c, init, limit, opt, h, rootDir)
 				return r2.err == nil && hasSig(r2, sig)
 			}
-			sh := shrinkInjects(vgen.Shrink(hist, fails), fails)
+			// the first failing history of every signature is shrunk; further ones are reported as they are
+			sh := hist
+			if !shrunk[sig] {
+				shrunk[sig] = true
+				sh = shrinkInjects(vgen.Shrink(hist, fails), fails)
+			}
 			res.Violations = append(res.Violations, vgen.Violation{Signature: sig, What: cr.what[vi], Case: ji,
-				Replay: Replay{Seed: j.seed, Case: j.c, Init: init, Limit: limit, History: sh}})
+				Replay: Replay{Seed: j.seed, Case: j.c, Init: init, Limit: limit, Lazy: opt.lazy, Loop: opt.loop, History: sh}})
 		}
 		var chain []string
 		for _, b := range cr.chain {
@@ -1560,7 +1883,7 @@ func TestVerif(t *testing.T) {
 		}
 	}
 	res.Distinct = len(distinct)
-	res.Rule = "real aggregator Manager (NewManager, real store/signer/publishBlockInternal) with MaxPendingHeadersAndData L in {1,2,3,10} and initial height in {1 (3/7), 2, 5, 12, 1000}; block mix per case: all-empty, all non-empty, 50% or 25% non-empty (the block at the initial height is always the stored genesis block, empty); histories of 4..maxLen items: bursts of 1..L+1 production attempts, single header / data submission iterations through the hooks (body of HeaderSubmissionLoop / DataSubmissionLoop), restarts (NewManager on the same datastore); every DA call answered truthfully from a script: accept all (40%), outage of 1..5 answers then acceptance, outage of 30..65 answers (> maxSubmitAttempts), outage until the context ends, acceptance of 1..3 blobs at a time, context cancelled at once; 80% of histories end with 2..2L+3 rounds of (header iteration, data iteration in either order against an accepting DA layer, then one production attempt) on which resumption / no-deadlock is judged; after every such pair of iterations no committed block may be left waiting; refusal-justified and limit-enforced are judged at every production attempt; plus a size-boundary stream (2 cases per run, 3 per thorough shard): limit in {255,256,257,300,1000}, idle stretches of 255/256/257/600 attempts without transactions in a row (run-length item IProduceEmptyN, expanded inside Coq) before / between blocks with transactions, DA layer healthy, 3..5 closing rounds, same oracles; INTERLEAVED attempts (item produce_i: 1/8 of the attempts of the general histories, plus an interleaving stream of N/3 cases: limit in {1,2,3,4,10}, bursts of L-1..L+1 blocks with the header loop keeping up and the data loop lagging, then 1..3 attempts with submission iterations inside, restarts, closing rounds): the store handed to the Manager is wrapped and at chosen store calls of publishBlockInternal (reads of numPendingHeaders / numPendingData / getPending, the fetches and watermark steps of numWaitingData, the calls of block building up to SetHeight) 1..2 header / data iterations (70% against an accepting DA layer, else any script) run synchronously before the call proceeds, or a header iteration at every call of numWaitingData's window; the point is classified from the call stack and handed to the model as a ThrottleConc.sched; oracle for such an attempt: a refusal needs L blocks waiting when the attempt BEGAN (it may be out of date when it returns), a refused attempt with an accepted header and data iteration inside leaves nothing waiting, and any later refusal with fewer than L blocks waiting is reported as refused-again-after-stale-refusal; PAYLOADS: a block with transactions carries either a fresh random transaction list (1..3 txs) or, in half of the general and interleaving histories with probability 2/3 per block, one of a pool of 1..3 FIXED lists, so that blocks at different heights have equal transaction lists (equal Data.Hash / DACommitment); plus a repeated-payload stream of N/6 cases (the first three: limit 1, 2, 3 with a heartbeat transaction in every block): limit in {1,2,3}, DA layer accepting, shapes: the same list in every block with the loops running after every block or every L blocks / A, B, A and then the last L blocks all equal to A / the first list coming back after other lists and empty blocks / any mix over a pool of two lists, fresh lists and empty blocks; then optionally a restart, and a tail of rounds (both iterations against the accepting DA layer, one attempt): an idle chain of L+2..L+3 empty blocks, or L+2 more blocks of the same list, or L+1 fresh lists, then idle; the model identifies a block by empty / non-empty only (a repeated list is a block with transactions like any other) and the same comparison and oracles apply; all in synctest bubbles (virtual time); non-trivial = at least one block produced, one refusal and one DA call; distinct = distinct (initial height, limit, model history) terms"
+	res.Rule = "real aggregator Manager (NewManager, real store/signer/publishBlockInternal) with MaxPendingHeadersAndData L in 1..10 and initial height in {1 (3/7), 2, 5, 12, 1000}; block mix per case: all-empty, all non-empty, 50% or 25% non-empty (the block at the initial height is always the stored genesis block, empty); histories of 4..maxLen items: bursts of 1..L+1 production attempts, single header / data submission iterations through the hooks (body of HeaderSubmissionLoop / DataSubmissionLoop), restarts (NewManager on the same datastore); every DA call answered truthfully from a script: accept all (40%), outage of 1..5 answers then acceptance, outage of 30..65 answers (> maxSubmitAttempts), outage until the context ends, acceptance of 1..3 blobs at a time, context cancelled at once; 80% of histories end with 2..2L+3 rounds of (header iteration, data iteration in either order against an accepting DA layer, then one production attempt) on which resumption / no-deadlock is judged; after every such pair of iterations no committed block may be left waiting; refusal-justified and limit-enforced are judged at every production attempt; CONFIGURATION per case, drawn independently of the history: config.Node.LazyMode on / off (1/2 each), and how a submission iteration is run (1/2 each): ONE TICK OF THE REAL HeaderSubmissionLoop / DataSubmissionLoop (the exported loop function started in its own goroutine with its own ticker, virtual time; it serves its first tick completely — all attempts, all backoff sleeps — and is ended when it calls isEmpty() for the second time; result class from what the loop did: read the pending range? reached the DA layer? logged an error itself?) or the loop body through the verif hooks; limits of the general stream: every value 1..10 (1, 2, 3, 10 twice as often); plus a BLOB-SIZE stream of N/10 cases, always on the real loops: limit 1..10, lazy or normal, blocks whose transactions weigh 1 KB .. 1.9 MB (40% log-uniform over the whole range, 30% within 4 KB of 64 KiB / 128 KiB / 256 KiB / 512 KiB / 1 MiB / 1.5 MiB / 100 000 / 250 000 / 500 000 / 750 000 / 1 000 000 / 1 250 000 / 1 500 000 / 1 750 000 / 1 900 000, 30% uniform in 1.0 .. 1.9 MB; 1..3 transactions; the DA double takes blobs up to 1 974 272 bytes), up to 4 such blocks per case with empty blocks in between, the data loop meeting a DA layer that takes one blob at a time / fails 1..3 times / fails 30 times, then a sized block followed by L-1 more blocks with transactions and 2..4 rounds — same model comparison (blob heights of EVERY DA request, watermarks) and oracles, plus: no request without a blob (empty-da-request); plus a size-boundary stream (2 cases per run, 3 per thorough shard): limit in {255,256,257,300,1000}, idle stretches of 255/256/257/600 attempts without transactions in a row (run-length item IProduceEmptyN, expanded inside Coq) before / between blocks with transactions, DA layer healthy, 3..5 closing rounds, same oracles; INTERLEAVED attempts (item produce_i: 1/8 of the attempts of the general histories, plus an interleaving stream of N/3 cases: limit in 1..10, bursts of L-1..L+1 blocks with the header loop keeping up and the data loop lagging, then 1..3 attempts with submission iterations inside, restarts, closing rounds): the store handed to the Manager is wrapped and at chosen store calls of publishBlockInternal (reads of numPendingHeaders / numPendingData / getPending, the fetches and watermark steps of numWaitingData, the calls of block building up to SetHeight) 1..2 header / data iterations (70% against an accepting DA layer, else any script) run synchronously before the call proceeds, or a header iteration at every call of numWaitingData's window; the point is classified from the call stack and handed to the model as a ThrottleConc.sched; oracle for such an attempt: a refusal needs L blocks waiting when the attempt BEGAN (it may be out of date when it returns), a refused attempt with an accepted header and data iteration inside leaves nothing waiting, and any later refusal with fewer than L blocks waiting is reported as refused-again-after-stale-refusal; PAYLOADS: a block with transactions carries either a fresh random transaction list (1..3 txs) or, in half of the general and interleaving histories with probability 2/3 per block, one of a pool of 1..3 FIXED lists, so that blocks at different heights have equal transaction lists (equal Data.Hash / DACommitment); plus a repeated-payload stream of N/6 cases (the first three: limit 1, 2, 3 with a heartbeat transaction in every block): limit in {1,2,3}, DA layer accepting, shapes: the same list in every block with the loops running after every block or every L blocks / A, B, A and then the last L blocks all equal to A / the first list coming back after other lists and empty blocks / any mix over a pool of two lists, fresh lists and empty blocks; then optionally a restart, and a tail of rounds (both iterations against the accepting DA layer, one attempt): an idle chain of L+2..L+3 empty blocks, or L+2 more blocks of the same list, or L+1 fresh lists, then idle; the model identifies a block by empty / non-empty only (a repeated list is a block with transactions like any other) and the same comparison and oracles apply; all in synctest bubbles (virtual time); non-trivial = at least one block produced, one refusal and one DA call; distinct = distinct (initial height, limit, model history) terms"
 	res.Cases = len(cases)
 	header := "From Coq Require Import NArith List Bool.\nFrom Verif Require Import Model.Throttle Model.ThrottleConc Check.ThrottleCheck."
 	path := filepath.Join(e.Out, "cases_C08.v")
